@@ -169,6 +169,15 @@ func (o nodeOpts) dbOptions() DatabaseContextOptions {
 // startNode creates and starts a DatabaseContext on the shared bucket.  It runs
 // as a priority task (StartOnlineProcesses performs storage operations and waits).
 func (w *simWorld) startNode(name string, o nodeOpts) (*simNode, error) {
+	return w.startNodeFrom(name, o, false)
+}
+
+// startNodeInTask is startNode for callers that already run as a simulator task.
+func (w *simWorld) startNodeInTask(name string, o nodeOpts) (*simNode, error) {
+	return w.startNodeFrom(name, o, true)
+}
+
+func (w *simWorld) startNodeFrom(name string, o nodeOpts, inTask bool) (*simNode, error) {
 	n := &simNode{w: w, name: name, opts: o}
 	n.node = simstore.NewNode(w.sim, name)
 	if o.FeedWorkers > 0 {
@@ -180,7 +189,11 @@ func (w *simWorld) startNode(name string, o nodeOpts) (*simNode, error) {
 	n.node.ReadFaults = o.ReadFaults
 	n.bucket = simstore.Wrap(n.node, w.bucket)
 	var err error
-	cerr := w.sim.Call("start."+name, func() {
+	call := func(label string, f func()) error { return w.sim.Call(label, f) }
+	if inTask {
+		call = func(_ string, f func()) error { f(); return nil }
+	}
+	cerr := call("start."+name, func() {
 		ctx := context.Background()
 		var dbc *DatabaseContext
 		// the stats registry is process-global and keyed by database name: one name per node and run
@@ -221,6 +234,15 @@ func (n *simNode) stop() error {
 	return n.w.sim.Call("stop."+n.name, func() {
 		n.dbc.Close(n.ctx)
 	})
+}
+
+// stopInTask is stop for callers that already run as a simulator task.
+func (n *simNode) stopInTask() {
+	if n.closed || n.dbc == nil {
+		return
+	}
+	n.closed = true
+	n.dbc.Close(n.ctx)
 }
 
 // crash kills the node: storage calls fail from now on, then the process state is dropped.
